@@ -4,13 +4,64 @@
     drains -> MeshEdgebreakerDecoderImpl::DecodeConnectivity's state machine (EB model): accepted, table isomorphic.
     Uses only the headline theorems of the layers ([ebsim_roundtrip_ct], [conn_standard_roundtrip],
     [eb_encode_ct_trav_premises], [events_countM]). *)
-From Coq Require Import ZArith List Bool Lia.
+From Coq Require Import ZArith List Bool Lia Arith.
 From Draco Require Import Model.CornerTable Model.EbEncoder Model.EbTrace Model.RansSymbol Model.EbTraversal.
 From Draco Require Import Proofs.CornerTable_proofs Proofs.EbEncoder_proofs Proofs.EbTrace_proofs Proofs.EbTraversal_proofs.
 From Draco Require Import Proofs.EbSimEvEncM_proofs.
 From Draco Require Model.Edgebreaker.
 Import ListNotations.
 Local Open Scope Z_scope.
+
+(** ---- at most one start-face bit per corner of the input: the bit-sequence bound of TRAV holds for the encoder's bits ---- *)
+Section BitsBound.
+Local Open Scope nat_scope.
+
+Lemma ebind_ok {A B} (e : eres A) (k : A -> eres B) r : ebind e k = EOk r -> exists a, e = EOk a /\ k a = EOk r.
+Proof. destruct e; cbn; intros H; try discriminate H. eauto. Qed.
+
+Lemma ec_corner_bits c2v opp hid st c s' bits' inits' :
+  ec_corner c2v opp hid st c = EOk (s', bits', inits') ->
+  exists s bits inits, st = EOk (s, bits, inits) /\ length bits' <= S (length bits).
+Proof.
+  unfold ec_corner. intros H.
+  apply ebind_ok in H. destruct H as ([[s bits] inits] & -> & H).
+  exists s, bits, inits. split; [reflexivity|].
+  apply ebind_ok in H. destruct H as (b & _ & H).
+  destruct b; [injection H as _ <- _; lia|].
+  destruct (is_degenerated c2v (c / 3)); [injection H as _ <- _; lia|].
+  apply ebind_ok in H. destruct H as ([start interior] & _ & H).
+  destruct interior.
+  - repeat (apply ebind_ok in H; destruct H as (? & _ & H)).
+    match type of H with match ?o with _ => _ end = _ => destruct o end.
+    + apply ebind_ok in H; destruct H as (b2 & _ & H). destruct b2.
+      * injection H as _ <- _. cbn. lia.
+      * apply ebind_ok in H; destruct H as (? & _ & H). injection H as _ <- _. cbn. lia.
+    + injection H as _ <- _. cbn. lia.
+  - repeat (apply ebind_ok in H; destruct H as (? & _ & H)). injection H as _ <- _. cbn. lia.
+Qed.
+
+Lemma ec_fold_bits c2v opp hid l : forall st s' bits' inits',
+  fold_left (ec_corner c2v opp hid) l st = EOk (s', bits', inits') ->
+  exists s bits inits, st = EOk (s, bits, inits) /\ length bits' <= length l + length bits.
+Proof.
+  induction l as [|c l IH]; cbn [fold_left]; intros st s' bits' inits' H.
+  - exists s', bits', inits'. split; [exact H|cbn; lia].
+  - destruct (IH _ _ _ _ H) as (s1 & b1 & i1 & E1 & L1).
+    destruct (ec_corner_bits _ _ _ _ _ _ _ _ E1) as (s & bits & inits & -> & L).
+    exists s, bits, inits. split; [reflexivity|cbn; lia].
+Qed.
+
+Theorem eb_encode_bits_le c2v opp nv niso ndeg o : eb_encode c2v opp nv niso ndeg = EOk o ->
+  length (o_bits o) <= length c2v.
+Proof.
+  unfold eb_encode. destruct (NF c2v =? ndeg); [discriminate|]. intros H.
+  apply ebind_ok in H. destruct H as ([hid vh] & _ & H).
+  apply ebind_ok in H. destruct H as ([[s bits] inits] & F & H).
+  injection H as <-. cbn [o_bits]. rewrite rev_length.
+  destruct (ec_fold_bits _ _ _ _ _ _ _ _ F) as (s0 & b0 & i0 & E0 & L).
+  injection E0 as _ <- _. rewrite seq_length in L. cbn in L. unfold NC in L. lia.
+Qed.
+End BitsBound.
 
 (** the header EncodeConnectivity writes for an encoder result (standard method) *)
 Definition hdr_of (o : enc_out) (nattr : Z) : conn_hdr :=
@@ -61,4 +112,32 @@ Proof.
   exists d, (rev (o_syms o)), (o_bits o), seams.
   split; [exact Hd|]. split; [exact Hdr|]. split; [reflexivity|].
   exists n, s. split; [exact Hdec|exact Hiso].
+Qed.
+
+Lemma bits_len_ok_ct faces t o : ct_create faces = Some t -> eb_encode_ct t = EOk o ->
+  Z.of_nat (3 * length faces + length (ct_vcorn t)) < 2147483648 -> bits_len_ok (o_bits o).
+Proof.
+  intros H E Sz. destruct (ct_create_wf _ _ H) as (L & _).
+  pose proof (eb_encode_bits_le _ _ _ _ _ _ E) as Hb. unfold bits_len_ok, zlen. lia.
+Qed.
+
+(** the same without the premise on the start-face bits *)
+Theorem eb_connectivity_stream_roundtrip' faces t o rm seams trav bs rest :
+  ct_create faces = Some t -> eb_encode_ct t = EOk o ->
+  Z.of_nat (3 * length faces + length (ct_vcorn t)) < 2147483648 ->
+  (3 * o_nfaces o) / 2 <= (o_nverts o * (o_nverts o - 1)) / 2 ->
+  Forall bits_len_ok seams ->
+  enc_trav_std (o_nfaces o) (o_syms o) (o_bits o) seams = Some trav ->
+  enc_conn (hdr_of o (zlen seams)) (o_events o) trav = Some bs ->
+  exists d syms' bits' seams',
+    dec_conn (bs ++ rest) = VOk (hdr_of o (zlen seams), o_events o, TStd d, rest) /\
+    drain_std (length (o_syms o)) (length (o_bits o)) (map (@length bool) seams) d = (syms', bits', seams') /\
+    seams' = seams /\
+    exists n s,
+      Edgebreaker.eb_full (o_nverts o) (o_nfaces o) (o_nsplit o) rm syms' (o_events o) (Edgebreaker.bits_of_list bits')
+        = Edgebreaker.Ok (n, s) /\
+      eb_iso (ct_c2v t) (ct_opp t) (o_pcc o) (Edgebreaker.c2v s) (Edgebreaker.copp s).
+Proof.
+  intros H E Sz G3 Hs. apply (eb_connectivity_stream_roundtrip faces t o rm seams trav bs rest H E Sz G3); [|exact Hs].
+  exact (bits_len_ok_ct faces t o H E Sz).
 Qed.
